@@ -106,6 +106,13 @@ def library():
         ('spline_buck4', D({"mod": "spline", "start": form('buck', 1388.773, 0.3623, 0.0), "detach": ['>', 1.2],
                             "kind": "buck4_spline", "rmin": 2.1, "attach": ['>', 2.6], "end": form('buck', 0.0, 1.0, 175.0),
                             "first": None}), set()),
+        # the first part of a spline with its own lower bound above the first rows; an end part that is a shifted potential
+        ('spline_lower', D({"mod": "spline", "start": form('zbl', 14, 8), "detach": ['>=', 0.8], "kind": "exp_spline",
+                            "rmin": None, "attach": ['>=', 1.4], "end": form('buck', 18003.0, 0.3, 32.0), "first": ['>=', 0.33]}), set()),
+        ('spline_trans', D({"mod": "spline", "start": form('zbl', 14, 8), "detach": ['>', 0.8], "kind": "exp_spline",
+                            "rmin": None, "attach": ['>=', 1.4], "end": mod('trans', form('buck', 1388.773, 0.3623, 175.0), x=0.25), "first": None}), set()),
+        # more ranges than any hand-written search would special-case: a piecewise potential with one polynomial per knot interval
+        ('twelverange', D(*[('>=' if k % 2 else '>', 0.25 * k, form('polynomial', 3.0 - 0.2 * k, -1.0 + 0.05 * k, 0.1 + 0.01 * k)) for k in range(12)]), {'api'}),
         ('buck4', D(form('buck4', 1388.773, 0.3623, 175.0, 1.2, 2.1, 2.6)), {'api'}),
         ('custom', D({"custom": "mix", "params": [700.0, 0.4]}), {'numeric'}),
         ('custom_in_sum', D(mod('sum', {"custom": "inner", "params": [12.0]}, form('bornmayer', 850.0, 0.35))), {'numeric'}),
